@@ -348,7 +348,8 @@ func (s StringOrArray) Contains(value string) bool {
 
 // JSONLookup implements an interface to customize json pointer lookup
 func (s SchemaOrArray) JSONLookup(token string) (interface{}, error) {
-	if _, err := strconv.Atoi(token); err == nil {
+	if _, err := strconv.Atoi(token); err == nil && (len(s.Schemas) > 0 || s.Schema == nil) {
+		// an index into the tuple; when a single schema is held, a number is one of ITS (unknown) keywords
 		r, _, err := jsonpointer.GetForToken(s.Schemas, token)
 		return r, err
 	}
